@@ -612,6 +612,27 @@ def rule_z_codec(db, chk, cfg, rule="LAYOUT.z-codec"):
     return n
 
 
+def _advanced_in(body, vid):
+    for y in walk(body):
+        if y.get("kind") == "UnaryOperator" and y.get("opcode") in ("++", "--"):
+            o = strip(kids(y)[0])
+        elif y.get("kind") == "CompoundAssignOperator" and y.get("opcode") in ("+=", "-="):
+            o = strip(kids(y)[0])
+        else:
+            continue
+        if o.get("kind") == "DeclRefExpr" and o.get("referencedDecl", {}).get("id") == vid:
+            return True
+    return False
+
+
+def _in_loop(body, call):
+    for y in walk(body):
+        if y.get("kind") in ("ForStmt", "WhileStmt", "DoStmt", "CXXForRangeStmt"):
+            if any(z is call for z in walk(y)):
+                return True
+    return False
+
+
 def rule_cursor_threaded(db, chk, cfg, rule="LAYOUT.cursor"):
     """The writers share one cursor into the flat array.  A writer either takes it by reference (then every call advances the caller's
     cursor by construction), or takes it by value and hands the next position back - then every call must store the returned position
@@ -629,6 +650,13 @@ def rule_cursor_threaded(db, chk, cfg, rule="LAYOUT.cursor"):
             elif t.endswith("*") and t.replace("const ", "") == ret_t.replace("const ", "") and any(
                     y.get("kind") == "ReturnStmt" and kids(y) and canon(kids(y)[0]) == p0.get("name") for y in walk(g.body)):
                 cur_idx = ("val", i)
+        if cur_idx is None:
+            # a writer that advances a by-value pointer to mutable elements and does not hand the position back: its caller's
+            # cursor stays where it was
+            for i, p0 in enumerate(g.params):
+                t = qt(p0).strip()
+                if t.endswith("*") and not t.startswith("const ") and _advanced_in(g.body, p0.get("id")):
+                    cur_idx = ("lost", i)
         if cur_idx is None:
             continue
         for f in fns:
@@ -648,6 +676,16 @@ def rule_cursor_threaded(db, chk, cfg, rule="LAYOUT.cursor"):
                         if y.get("kind") == "ReturnStmt" and kids(y) and strip(kids(y)[0]) is c:
                             ok = True
                     why = "the next write position it returns is not stored back into `%s`" % arg
+                elif cur_idx[0] == "lost":
+                    a = strip(db.call_args(c)[cur_idx[1]])
+                    vid = a.get("referencedDecl", {}).get("id") if a.get("kind") == "DeclRefExpr" else None
+                    # the caller goes on using the cursor it passed (advances it, or passes it to a writer again - the recursion
+                    # and a call in a loop included)
+                    again = vid is not None and (_advanced_in(f.body, vid) or _in_loop(f.body, c) or sum(
+                        1 for y in walk(f.body) if y.get("kind") == "CallExpr" and y is not c and any(
+                            strip(z).get("kind") == "DeclRefExpr" and strip(z)["referencedDecl"].get("id") == vid for z in db.call_args(y))) > 0)
+                    ok = not again
+                    why = "does not hand the next position back, while the caller goes on writing at `%s`" % canon(a)
                 chk.instance(rule, {"writer": g.qual, "caller": f.qual, "cursor_passed": cur_idx[0], "call": canon(c)[:60], "cfg": cfg}, ok=ok)
                 if not ok:
                     chk.violation(rule, f.qual, "%s|%s" % (g.name, canon(c)[:40]), "`%s` in %s: %s takes the write cursor by value and %s: the following record is "
